@@ -1,6 +1,6 @@
 (* Extraction of the executable models. ExtrOcamlBasic only: Z/positive/nat stay inductive. *)
 From MVGen Require Import JsTables_gen Tables_gen.
-From MV Require Import Base.MvBytes Num.NumModel Json.JsonModel Json.JsonSpec Dispatch.DispatchModel DataUri.DataUriModel Stream.StreamModel Buf.BufModel Cli.CliModel Cli.ConcatModel Stream.StreamHttp Xml.XmlModel Base.Ws Js.RenameModel Svg.PathSep Js.PrintModel Js.PrintGen Js.RewriteModel Css.CssBox Css.CssColor Html.HtmlAttr Html.HtmlWs Html.HtmlWsWf Html.HtmlEmbed Html.HtmlSelect Html.HtmlAttrLoop Js.StmtModel Js.StmtPrint Js.StmtParse Js.NumLit Js.StrLit Js.StrLitSpec Css.CssDim Cli.GlobModel Js.PrintRender Js.StmtRender Js.StmtRenderProofs Js.StmtRenderClosed Cli.PathModel Json.JsonParse Js.StrCat.
+From MV Require Import Base.MvBytes Num.NumModel Json.JsonModel Json.JsonSpec Dispatch.DispatchModel DataUri.DataUriModel Stream.StreamModel Buf.BufModel Cli.CliModel Cli.ConcatModel Stream.StreamHttp Xml.XmlModel Base.Ws Js.RenameModel Svg.PathSep Js.PrintModel Js.PrintGen Js.RewriteModel Css.CssBox Css.CssColor Html.HtmlAttr Html.HtmlWs Html.HtmlWsWf Html.HtmlEmbed Html.HtmlSelect Html.HtmlAttrLoop Js.StmtModel Js.StmtPrint Js.StmtParse Js.NumLit Js.StrLit Js.StrLitSpec Css.CssDim Cli.GlobModel Js.PrintRender Js.StmtRender Js.StmtRenderProofs Js.StmtRenderClosed Cli.PathModel Json.JsonParse Js.StrCat Css.CssAlpha.
 Require Extraction.
 Require Import ExtrOcamlBasic.
 Extraction Language OCaml.
@@ -14,7 +14,7 @@ Separate Extraction number0 decimal0 valid_number valid_decimal
   serve close_err
   xml_minify escape_attr_val escape_cdata_val collapse
   emit st_cmd
-  print_gen OpAssign OpExpr print_rw T_gen optimize_body print_body print_list parse_program canon_list printable_list else_safe_list decimal_number binary_number octal_number hexadecimal_number minify_string decode number_token percentage_token dimension_token css_zero_dimensions compile_src glob_matches file_filter items_src glob_tokens render render_body lexs_bytes stok_surfaces stmts_okb stmts_fuel_okb PathModel.clean PathModel.dir PathModel.join PathModel.rel new_task_dst merge_strings
+  print_gen OpAssign OpExpr print_rw T_gen optimize_body print_body print_list parse_program canon_list printable_list else_safe_list decimal_number binary_number octal_number hexadecimal_number minify_string decode number_token percentage_token dimension_token css_zero_dimensions compile_src glob_matches file_filter items_src glob_tokens render render_body lexs_bytes stok_surfaces stmts_okb stmts_fuel_okb PathModel.clean PathModel.dir PathModel.join PathModel.rel new_task_dst merge_strings min_number_percentage
   box_collapse_nat hex_color_minify css_shorten_color_hex
   HtmlWs.html_minify HtmlAttr.html_escape_attr_val HtmlWsWf.wf_tokens_b HtmlAttrLoop.attrs_out HtmlSelect.html_select HtmlEmbed.html_minify_reg HtmlEmbed.mt_js HtmlEmbed.mt_css HtmlEmbed.mt_html HtmlEmbed.mt_svg HtmlEmbed.mt_math
   get_name rename_program js_identStart_alpha js_identContinue_alpha js_identStart_freq js_identContinue_freq.
